@@ -8,8 +8,10 @@ CLAIMED = {
  "C03": ("validity predicate + SPEC cross-check over generated (path, document) pairs", "4", "every accepted path of the C02 generators evaluated on generated documents (directed, free, empty, null/scalar roots; both decodings; failing user functions): result is (non-empty, nil) or (nil, documented runtime error), ErrorFunctionFailed only after a user function failed, and 'SPEC selects nothing' <=> error"),
  "C11": ("exhaustive small scope + random boundary search against a CPython-pinned slice model", "4", "all start/end/step in {omitted} U [-7..7] x lengths 0..6 enumerated completely, plus the boundary-magnitude cross product and random int64 triples up to length 40, compared with Python slice semantics"),
  "C12": ("relational (mode parity) over generated cases with recording functions", "4", "each generated (path, document) evaluated with and without accessor mode: same length, Get() deep-equals the plain value, same error, identical function call logs, never an Accessor inside a function argument"),
+ "C13": ("SPEC location model + stateful history against a shadow document", "4", "for every accessor of every generated result: Set on a fresh copy, then document diff against the original with exactly SPEC's predicted location replaced, Get liveness before/after; drawn Set/direct-update histories checked against a shadow copy; Set == nil exactly for non-locations"),
  "C14": ("SPEC call-log differential with recording functions", "4", "per function occurrence, the recorded arguments (count, order, values; list vs array-elements for aggregates) are compared with SPEC's expected call log; results must be the chained return values; ErrorFunctionFailed when only functions failed"),
  "C15": ("SPEC failure-candidate differential", "4", "for every generated failing (path, document): the reported error (Go type, path text, expected, found) must match a failure SPEC finds at the deepest failing step, non-type failures preferred; exact for single-valued paths"),
+ "C20": ("SPEC differential on documents with injected non-JSON values", "4", "generated documents with leaves/sub-containers replaced by 22 kinds of non-JSON Go values; results (by identity), function arguments and errors (ErrorTypeUnmatched naming the Go type) compared with SPEC's opaque-leaf rule; no panic"),
  "C17": ("differential against PEGI, an interpreter of jsonpath.peg", "4", "Parse's accept/reject decision, error type, character position and near text compared with an independent interpreter executing the published grammar file plus the documented restrictions, on generated/mutated strings and the enumerated reduced grammar"),
 }
 PENDING = {}
